@@ -16,6 +16,7 @@ import Fc.Holds
 import Fc.CoText
 import Fc.MonNest
 import Fc.NestText
+import Fc.Snap
 
 open Fc
 
@@ -28,6 +29,7 @@ structure CaseAcc where
   scripts : List (Nat × List Step) := []
   ops     : Array Op := #[]
   impl    : Array String := #[]
+  ks      : Array String := #[]     -- the crate's own readiness snapshots (fc-verif hook), one per op
   bad     : Option String := none
   co      : Option Co.Cfg := none
   coVec   : Option Nat := none      -- `Vec::into_co_stream` source over that many items
@@ -148,10 +150,19 @@ def finish (modeArg : String) (a : CaseAcc) : IO Unit := do
       let hs := match a.impl.toList.mapM (fun l => parseEv (words l)) with
         | none => "parse=0"
         | some evs => holdsText c nch evs.reverse
+      -- internal state: the readiness bookkeeping after every operation (when the hook is compiled in)
+      let ksText : String :=
+        if a.ks.isEmpty || !c.hasKernel then "" else
+          let ms := c.snaps
+          let (ok, k) := snapsAgree ms a.ks.toList
+          let where_ := match firstDiff ms (List.zipWith (fun m i => if i = "-" then m else i) ms a.ks.toList) with
+            | some (j, m, i) => s!" ksdiv={j} ksmodel={m} ksimpl={i}"
+            | none => ""
+          s!" eqKS={if ok then 1 else 0} ks={k}/{ms.length}/{a.ks.size}" ++ (if ok then "" else where_)
       match firstDiff model impl with
-      | none => IO.println s!"R {a.id} eq=1 len={model.length} {hs}"
+      | none => IO.println s!"R {a.id} eq=1 len={model.length} {hs}{ksText}"
       | some (k, m, i) =>
-        IO.println s!"R {a.id} eq=0 {projEq model impl} {hs} div={k} model=[{m}] impl=[{i}]"
+        IO.println s!"R {a.id} eq=0 {projEq model impl} {hs}{ksText} div={k} model=[{m}] impl=[{i}]"
 
 partial def loop (modeArg : String) (h : IO.FS.Stream) (a : CaseAcc) : IO Unit := do
   let line ← h.getLine
@@ -179,6 +190,7 @@ partial def loop (modeArg : String) (h : IO.FS.Stream) (a : CaseAcc) : IO Unit :
     match parseOp op with
     | some o => loop modeArg h { a with ops := a.ops.push o }
     | none => loop modeArg h { a with bad := some s!"op:{line.trimAscii.toString}" }
+  | ["T", "ks", snap] => loop modeArg h { a with ks := a.ks.push snap }
   | "T" :: ev =>
     loop modeArg h { a with impl := a.impl.push (" ".intercalate ev) }
   | ["END"] => do
